@@ -12,6 +12,7 @@
 ###############################################################################
 import logging
 import operator
+import queue
 from multiprocessing import Process, Queue
 from typing import Any, Callable, Dict, Iterator, List, Optional
 
@@ -88,13 +89,17 @@ class MultiprocessingSolver(Solver):
 
     def solve(self) -> Iterator[NDArray]:
         solutions: Queue = Queue()
+        processes = []
         for proc_idx, solver in enumerate(self.solvers):
-            Process(target=solver.solve_and_queue, args=(proc_idx, solutions)).start()
+            processes.append(Process(target=solver.solve_and_queue, args=(proc_idx, solutions)))
+            processes[proc_idx].start()
+        done = [False] * len(self.solvers)
         nb = len(self.solvers)
         while nb > 0:
-            proc_idx, solution, statistics = solutions.get()
+            proc_idx, solution, statistics = get_message(solutions, processes, done)
             self.statistics[proc_idx] = statistics
             if solution is None:
+                done[proc_idx] = True
                 nb -= 1
             else:
                 yield solution
@@ -107,18 +112,46 @@ class MultiprocessingSolver(Solver):
 
     def optimize(self, variable_idx: int, proc_func_name: str, comparison_func: Callable) -> Optional[NDArray]:
         solutions: Queue = Queue()
+        processes = []
         for proc_idx, solver in enumerate(self.solvers):
-            Process(target=(getattr(solver, proc_func_name)), args=(variable_idx, proc_idx, solutions)).start()
+            processes.append(Process(target=(getattr(solver, proc_func_name)), args=(variable_idx, proc_idx, solutions)))
+            processes[proc_idx].start()
+        done = [False] * len(self.solvers)
         best_solution = None
         nb = len(self.solvers)
         while nb > 0:
-            proc_idx, solution, statistics = solutions.get()
+            proc_idx, solution, statistics = get_message(solutions, processes, done)
             self.statistics[proc_idx] = statistics
             if solution is None:
+                done[proc_idx] = True
                 nb -= 1
             elif best_solution is None or comparison_func(solution[variable_idx], best_solution[variable_idx]):
                 best_solution = solution
         return best_solution
+
+
+QUEUE_TIMEOUT = 0.2  # seconds
+
+
+def get_message(solutions: Queue, processes: List[Process], done: List[bool]) -> Any:
+    """
+    Gets the next message sent by the workers.
+    Raises an error, instead of blocking forever, when a worker died before announcing its completion.
+    :param solutions: the queue of messages
+    :param processes: the worker processes
+    :param done: for each worker, true iff it has announced its completion
+    :return: the message
+    """
+    while True:
+        try:
+            return solutions.get(timeout=QUEUE_TIMEOUT)
+        except queue.Empty:
+            for proc_idx in range(len(processes)):
+                if not done[proc_idx] and not processes[proc_idx].is_alive():
+                    try:
+                        return solutions.get(timeout=QUEUE_TIMEOUT)  # a message sent before the worker died
+                    except queue.Empty:
+                        raise RuntimeError(f"worker {proc_idx} died before announcing its completion")
 
 
 def sum_stats(stats: List[Any], index: int) -> int:
